@@ -29,7 +29,11 @@ PLAIN_NAMES = ["alpha.txt", "Beta.txt", "gamma", "delta.html", "epsilon.html", "
                "n" * 246, "m" * 247 + ".txt", "k" * 255, "j" * 250 + ".html",
                # the same visible text in composed and decomposed form, and compatibility characters: different names
                "cafe\u0301.txt", "A\u030angstro\u0308m", "\u212bngstr\u00f6m", "\ufb01le.txt", "file.txt", "\uff21.txt",
-               "café.txt", "10", "9", "z.txt", "Z.txt", "_under", "-dash"]
+               "café.txt", "10", "9", "z.txt", "Z.txt", "_under", "-dash",
+               # characters that mean something to a pattern, a shell or a path on another system, but not to this one's
+               # file system: ordinary names (a lone backslash is not the doubled or dot-led one the selector filter refuses)
+               "AC\\DC.txt", "back\\slash~", "a[1].txt", "what?.txt", "star*.txt", "c:drive.txt", "semi;colon", "pipe|name.txt",
+               "100%.txt", "{brace}.txt", "(paren).txt", "$HOME.txt", "tick`s.txt", "quo\"te.txt", "tab-less name .txt"]
 DOTFILES = [".hidden", ".x", ".profile"]
 DOTDIRS = [".private", ".git", ".well-known"]
 # names equal up to letter case: any case-folding sort key would let the enumeration order decide
